@@ -70,6 +70,7 @@ Accept ==
 Next == Consume \/ Accept
 Spec == Init /\ [][Next]_vars
 
-\* the cache only grows and never changes a stored value
-CacheStable == [][\A x \in DOMAIN cache : x \in DOMAIN cache' /\ cache'[x] = cache[x]]_vars
+\* the cache only grows and never changes a stored (non-None) value
+CacheStable == [][\A x \in DOMAIN cache :
+                    x \in DOMAIN cache' /\ (cache[x] = 0 \/ cache'[x] = cache[x])]_vars
 =============================================================================
